@@ -419,7 +419,7 @@ func (n *network) DisableApplicationStart(name gen.Atom, nodes ...gen.Atom) erro
 	enable := v.(*enableAppStart)
 	enable.Lock()
 	for _, nn := range nodes {
-		delete(enable.nodes, nn)
+		enable.nodes[nn] = false
 	}
 	enable.Unlock()
 	return nil
